@@ -1,6 +1,7 @@
 import Driver.Json
 import Pymodbus.Model.AsyncClient
 import Pymodbus.Spec.AsyncClientSpec
+import Pymodbus.Model.AsyncNet
 open Lean Pymodbus Pymodbus.AsyncClient
 
 namespace Driver
@@ -97,5 +98,40 @@ def opAsync (j : Json) : P Json := do
     out := out ++ [("spec_impl", jVerdict (Spec.verdict v (ops.zip isegs)))]
   | none => pure ()
   pure (Json.mkObj out)
+
+def parseCOp (j : Json) : P AsyncClient.COp := do
+  let l ← arr j
+  match (← str (← nth l 0)) with
+  | "data" => pure (.data (← nats (← nth l 1)))
+  | _ => pure (.proto (← parseAOp j))
+
+def parseNOp (j : Json) : P AsyncClient.NOp := do
+  let l ← arr j
+  match (← str (← nth l 0)) with
+  | "open" => pure .open
+  | "on" => pure (.on (← nat (← nth l 1)) (← parseCOp (← nth l 2)))
+  | o => throw s!"bad asyncnet op {o}"
+
+/-- `asyncnet`: a history over several protocol objects (`["open"]`, `["on", i, op]`, `op` = an `async` op or
+    `["data", bytes]` = a chunk arriving on connection i).
+    out: segs (events per operation), conns (per connection: pending, tid, connected, next_id, buffered) -/
+def opAsyncNet (j : Json) : P Json := do
+  let v ← match (← fStr j "variant") with
+    | "dict" => pure Variant.dict
+    | "fifo" => pure Variant.fifo
+    | o => throw s!"bad variant {o}"
+  let ops ← (← fArr j "ops").mapM parseNOp
+  let mut n : AsyncClient.Net := []
+  let mut segs : Array (List AsyncClient.Event) := #[]
+  for op in ops do
+    let p := AsyncClient.nstep v n op
+    n := p.1
+    segs := segs.push (p.2.map (·.2))
+  pure (Json.mkObj [
+    ("segs", Json.arr (segs.map (fun es => jArr (es.map jAEv)))),
+    ("conns", jArr (n.map (fun c => Json.mkObj [
+      ("pending", jArr (c.proto.pending.map (fun p => jArr [jNat p.1, jNat p.2.id]))),
+      ("tid", jNat c.proto.tid), ("connected", Json.bool c.proto.connected), ("next_id", jNat c.proto.nextId),
+      ("buffered", jNat c.buf.length)])))])
 
 end Driver
